@@ -31,6 +31,10 @@ def run(ctx):
     ctx.guard(_scope.containment, ctx, 'C20-CONTAIN')
     ctx.guard(emission_loops, ctx)
     ctx.guard(stateless, ctx)
+    from . import c02 as _c02, c09 as _c09
+    from .common import AssocModel as _AM
+    ctx.shared(_c02.atomic, ctx, _AM(ctx.repo))    # a rejected edit (relate / unrelate) leaves the model, hence the regenerated schema, unchanged
+    ctx.shared(_c09.nav, ctx)                      # containment and every declaration are found by navigation (also across association classes)
     ctx.assume('completeness of the generated schema against a concrete model is not decided')
     return ('Schema type-check of gen_xsd_schema navigations; agreement of get_type_name / build_type / build_core_type '
             'dispatch tables; succession-order reader rule on R56/R46; scope predicates; attribute mapping patterns; '
